@@ -147,6 +147,34 @@ func init() {
 			return nil
 		},
 		".zzSymbolic": func(fr *frame, a []value) value { return true },
+		".zzSameNum": func(fr *frame, a []value) value {
+			if !isSym(a[0]) && !isSym(a[1]) {
+				x, y := a[0].(float64), a[1].(float64)
+				return x == y || (x != x && y != y)
+			}
+			e := fr.i.ex
+			x, y := e.abbrev(toF(a[0]), f64), e.abbrev(toF(a[1]), f64)
+			return symB{"(or (fp.eq " + x + " " + y + ") (and (fp.isNaN " + x + ") (fp.isNaN " + y + ")))"}
+		},
+		".zzSameBits": func(fr *frame, a []value) value {
+			if !isSym(a[0]) && !isSym(a[1]) {
+				x, y := a[0].(float64), a[1].(float64)
+				return math.Float64bits(x) == math.Float64bits(y) || (x != x && y != y)
+			}
+			e := fr.i.ex
+			x, y := e.abbrev(toF(a[0]), f64), e.abbrev(toF(a[1]), f64)
+			return symB{"(= " + x + " " + y + ")"}
+		},
+		".zzIsNaN": func(fr *frame, a []value) value {
+			if x, ok := a[0].(symF); ok {
+				return symB{"(fp.isNaN " + x.t + ")"}
+			}
+			x := a[0].(float64)
+			return x != x
+		},
+		".zzAnd":     func(fr *frame, a []value) value { return mkB(sAnd(toB(a[0]), toB(a[1]))) },
+		".zzOr":      func(fr *frame, a []value) value { return mkB(sOr(toB(a[0]), toB(a[1]))) },
+		".zzImplies": func(fr *frame, a []value) value { return mkB(sOr(sNot(toB(a[0])), toB(a[1]))) },
 		// zzIsSym(x any) bool: does x hold a symbolic scalar
 		".zzConcreteF": func(fr *frame, a []value) value {
 			// concretise a float: pick a model value and fix it
